@@ -78,10 +78,24 @@ class Lock:
         self.f.close()
 
 
+def prune(directory, prefix, keep):
+    """disk hygiene: of the files directory/prefix* keep the `keep` most recently used ones (one binary and one cache entry
+    is made per state of /repo and /verif; without this they pile up)"""
+    try:
+        fs = [os.path.join(directory, f) for f in os.listdir(directory) if f.startswith(prefix) and ".tmp" not in f]
+        fs.sort(key=lambda f: os.path.getmtime(f), reverse=True)
+        for f in fs[keep:]:
+            if time.time() - os.path.getmtime(f) > 3600:   # never something a concurrent check may have just made
+                os.remove(f)
+    except OSError:
+        pass
+
+
 def cached(key, fn):
     """run fn() once per key; the JSON result is stored under .work/cache"""
     d = os.path.join(WORK, "cache")
     os.makedirs(d, exist_ok=True)
+    prune(d, key.split("-")[0] + "-", 24)
     path = os.path.join(d, key + ".json")
     with Lock("cache-" + key):
         if os.path.exists(path):
@@ -117,6 +131,9 @@ def build_harness():
     if r["ok"] and not os.path.exists(out):  # cache entry without binary (cleaned): rebuild
         os.remove(os.path.join(WORK, "cache", key + ".json"))
         r = cached(key, go)
+    if r["ok"]:
+        os.utime(out, None)
+    prune(os.path.join(WORK, "bin"), "harness-", 6)
     return r
 
 
